@@ -23,6 +23,9 @@ var c10Polluters = []jsProg{
 	{"bindings-depth3", `_.bindings.o.l[0].z = 99; _.bindings.o.l.push(7); return {};`},
 	{"bindings-go-typed", `_.bindings.tags[0] = "changed"; _.bindings.labels.a = "changed"; _.bindings.recs[0].k = 2; return {};`},
 	{"bindings-permanent-value", `_.bindings["cfg!"].limit = 0; _.bindings["cfg!"].deep[0].z = "changed"; _.bindings["cfg!"].deep.push(9); _.bindings["list!"][0] = "changed"; return _.bindings;`},
+	{"bindings-by-computed-name", `var b = _["bind" + "ings"]; b.a = 99; delete b.keep; b.o.x = 99; b.o.l.push(8); return {};`},
+	{"bindings-by-enumeration", `for (var k in _) { var v = _[k]; if (v && typeof v == "object" && v.keep !== undefined) { v.keep = "gone"; v.o.x = 98; } } return {};`},
+	{"props-by-computed-name", `var p = _["pro" + "ps"]; if (p.cfg) { p.cfg.x = 97; } p.viaComputed = 1; return {};`},
 	{"props-nested", `_.props.cfg.x = 99; _.props.list.push(1); return {};`},
 	{"props-top", `_.props.top = 1; delete _.props.cfg; return {};`},
 	{"props-array-of-maps", `_.props.hosts[0].up = false; _.props.hosts[0].tags.push("t"); _.props.hosts[1][0].deep = 2; return {};`},
